@@ -35,6 +35,9 @@ type Config struct {
 	Solver       string
 	MapOrder     string // "", "reverse", "swap:<k>"
 	Bounds       map[string]int
+	StrParams    map[string]string
+	BitLenExtra  []int // additional exact anchors for the big.Int BitLen model
+	LazyFeas     bool  // do not ask the solver at forks: both sides are explored, feasibility is decided at assertions and at the end of a path
 	Deadline     time.Time
 	Merge        map[string]bool
 	SampleMax    int // translator validation: number of returning paths whose model is replayed natively
@@ -42,7 +45,7 @@ type Config struct {
 }
 
 func defaultConfig() *Config {
-	return &Config{Unwind: 12, ListBound: 2, ByteBound: 8, StrConvMax: 8, MaxDepth: 80, MaxPaths: 20000, TimeoutMs: 20000, Solver: "z3-new", Bounds: map[string]int{}, Merge: map[string]bool{}}
+	return &Config{Unwind: 12, ListBound: 2, ByteBound: 8, StrConvMax: 8, MaxDepth: 80, MaxPaths: 20000, TimeoutMs: 20000, Solver: "z3-new", Bounds: map[string]int{}, Merge: map[string]bool{}, StrParams: map[string]string{}}
 }
 
 type symInfo struct {
@@ -174,15 +177,16 @@ type Exec struct {
 	initDone     bool
 	initSeq      int
 
-	res        *Result
-	curSite    string
-	ufDecls    map[string]string // global UF declarations (sent once per solver, before any push)
-	pendingUF  []string
-	intrinsics map[string]intrinsic
-	lazyIface  map[string][]types.Type
-	fnCache    map[string]*ssa.Function
-	curFn      *ssa.Function
-	loopCache  map[*ssa.Function]map[*ssa.BasicBlock]bool
+	res           *Result
+	curSite       string
+	ufDecls       map[string]string // global UF declarations (sent once per solver, before any push)
+	pendingUF     []string
+	intrinsics    map[string]intrinsic
+	lazyIface     map[string][]types.Type
+	fnCache       map[string]*ssa.Function
+	curFn         *ssa.Function
+	lazyUnchecked bool
+	loopCache     map[*ssa.Function]map[*ssa.BasicBlock]bool
 }
 
 type intrinsic func(e *Exec, fn *ssa.Function, args []Value) Value
@@ -357,6 +361,15 @@ func (e *Exec) branch(c *BoolV) bool {
 	}
 	if !e.cfg.Deadline.IsZero() && time.Now().After(e.cfg.Deadline) {
 		panic(pathEnd{"deadline", "time budget exhausted"})
+	}
+	if e.cfg.LazyFeas {
+		e.lazyUnchecked = true
+		alt := append(append([]bool{}, e.script...), false)
+		e.work = append(e.work, alt)
+		e.script = append(e.script, true)
+		e.pos++
+		e.assumeBranch(c.T)
+		return true
 	}
 	r1 := e.checkWith(c.T)
 	tOK := r1 != "unsat" // unknown keeps the branch (sound for safety)
@@ -671,6 +684,9 @@ func (e *Exec) call(fn *ssa.Function, args []Value, bind []Value) Value {
 	if fn.Pkg != nil && strings.HasPrefix(fn.Pkg.Pkg.Path(), zzPath) {
 		return e.zzCall(fn, args)
 	}
+	if o := fn.Origin(); o != nil && o.Pkg != nil && strings.HasPrefix(o.Pkg.Pkg.Path(), zzPath) {
+		return e.zzCall(fn, args)
+	}
 	if fn.Name() == "init" && fn.Pkg != nil && fn.Signature.Recv() == nil && len(fn.Params) == 0 && fn.Parent() == nil && fn == fn.Pkg.Func("init") {
 		// package initialiser called from another package's init
 		if !strings.HasPrefix(fn.Pkg.Pkg.Path(), "github.com/zmap/zlint/v3") {
@@ -957,6 +973,7 @@ func (e *Exec) resetPath() {
 	e.monitorOn = false
 	e.lockDepth = map[*Obj]int{}
 	e.pcLines = nil
+	e.lazyUnchecked = false
 	e.ghost = map[string][]Value{}
 	e.objSeq = e.initSeq
 	for _, o := range e.dirtyObjs {
@@ -1092,6 +1109,27 @@ func (e *Exec) RunWith(fn *ssa.Function, mkArgs func(e *Exec) []Value) *Result {
 			e.call(fn, args, nil)
 			rec.End = "return"
 		}()
+		if e.cfg.LazyFeas && e.lazyUnchecked {
+			// feasibility of this path was never established: decide it now when the path reports anything
+			if len(e.covers) > 0 || (rec.End != "return" && rec.End != "infeasible" && rec.End != "assert-failed") {
+				switch r := e.s.Check(); r {
+				case "sat":
+				case "unsat":
+					e.reviveSolver()
+					rec.End, rec.Msg = "infeasible", "path condition unsatisfiable (decided at path end)"
+					e.covers = nil
+				default:
+					e.reviveSolver()
+					e.covers = nil
+					e.notes["feasibility"] = "unknown"
+					if rec.End == "return" {
+						rec.End, rec.Msg = "return-feasibility-unknown", ""
+					}
+				}
+			} else if rec.End == "return" {
+				e.notes["feasibility"] = "unchecked"
+			}
+		}
 		if rec.End == "return" && sampled < e.cfg.SampleMax && !usesUnreplayable(e.stubs) && (int64(len(res.Paths))+e.cfg.SampleSeed)%3 == 0 {
 			if m := e.pathModel(); m != nil {
 				rec.PCModel = m
